@@ -1967,14 +1967,15 @@ class SSHConnection(SSHPacketHandler, asyncio.Protocol):
                                            mac_keysize_cs)
         mac_key_sc = self._kex.compute_key(k, h, b'F', self._session_id,
                                            mac_keysize_sc)
-        self._kex = None
-
         if _verif.sink:
             _verif.emit('keylog', conn=self, k=k, h=h,
                         session_id=self._session_id, first_kex=first_kex,
+                        kex_alg=self._kex.algorithm,
                         enc_cs=self._enc_alg_cs, enc_sc=self._enc_alg_sc,
                         mac_cs=self._mac_alg_cs, mac_sc=self._mac_alg_sc,
                         cmp_cs=self._cmp_alg_cs, cmp_sc=self._cmp_alg_sc)
+
+        self._kex = None
 
         next_enc_cs = get_encryption(self._enc_alg_cs, enc_key_cs, iv_cs,
                                      self._mac_alg_cs, mac_key_cs, etm_cs)
